@@ -13,7 +13,8 @@ RULE = ("Voronoi (straight), Moebius-image (exact arcs, |phi| from 1e-9 to ~1.2 
         "random per interface, uniform or uneven spacing); both circle fits; ignore_four on/off; random labels and "
         "orientations. distinct = (family, cells, junctions used, unknowns, points set, fit, ignore_four, pose mode); "
         "non-trivial = at least one junction equation"
-        ' Added after the seeded rounds: lattices with 4-, 5..10- and 6-fold junctions, exact diagonals (lat-diamond) and rosettes; first segment exactly axis-parallel; an earlier build on the same object with other options or an angle limit; id 0 and ids up to 2^53+.')
+        ' Added after the seeded rounds: lattices with 4-, 5..10- and 6-fold junctions, exact diagonals (lat-diamond) and rosettes; first segment exactly axis-parallel; an earlier build on the same object with other options or an angle limit; id 0 and ids up to 2^53+.'
+        ' Lattice sub-tissues with ragged rims.')
 MIN_DECISIVE = {"quick": 120, "thorough": 1500}
 REQUIRED_COUNTERS = ["post:ForceMatrix", "coef:compared", "zero:entries"]
 TECHNIQUE = ("runtime contract on ForceMatrix.__post_init__: per-coefficient comparison with closed-form tangents of "
